@@ -11,6 +11,23 @@ E2 = "stateless model checking: exhaustive DFS of the choice tree of RNG answers
 E3 = "explicit-state BFS over operation histories of the real object, reference-model comparison in every state"
 
 CHECKS = {
+    "C19": dict(
+        built=True,
+        category="model_checking",
+        engine="E2",
+        technique="stateless model checking of the choice tree: every answer of the solver's random generator and every answer of the "
+        "objective function (memoised oracle over a small value alphabet) enumerated per solver driver; mirror and determinism replays",
+        text="Schedules (random decision sequences) and all deterministic objective functions are the quantifier: for one small driver "
+        "per solver the complete tree of RNG answers x objective answers is executed on the real solver (or the tree up to a "
+        "stated number of deviations), each leaf judged for 'returned point was evaluated, objective is f there in the user's sign, "
+        "nothing evaluated is better, evaluations = calls, inside bounds', then replayed under minimize=False on -f for the "
+        "mirror-image clause and (every 97th) twice for determinism; powell/bfgs/lbfgs on a finite family of deterministic "
+        "functions; real seeds in separate processes with different PYTHONHASHSEED.",
+        note="Trusts: vf/e2.py (ScriptedRandom menus are an alphabet bound: 5 floats for random(), 3 for uniform()); objective "
+        "values from {0,1,2}; horizons of 1-3 iterations. Continuous effects (GP numerics, golden section) are only covered as far as "
+        "these alphabets drive them.",
+        ref="2/C19",
+    ),
     "C18": dict(
         built=True,
         category="model_checking",
